@@ -365,8 +365,12 @@ func NewWALDecoder(rd io.Reader) *WALDecoder {
 func (dec *WALDecoder) Decode() (*TimedWALMessage, error) {
 	b := make([]byte, 4)
 
-	_, err := dec.rd.Read(b)
+	n, err := dec.rd.Read(b)
 	if errors.Is(err, io.EOF) {
+		if n > 0 {
+			// the log ends inside a record's checksum: a torn write, not a clean end
+			return nil, DataCorruptionError{fmt.Errorf("failed to read checksum: %v (read: %d, wanted: %d)", err, n, len(b))}
+		}
 		return nil, err
 	}
 	if err != nil {
@@ -389,7 +393,7 @@ func (dec *WALDecoder) Decode() (*TimedWALMessage, error) {
 	}
 
 	data := make([]byte, length)
-	n, err := dec.rd.Read(data)
+	n, err = dec.rd.Read(data)
 	if err != nil {
 		return nil, DataCorruptionError{fmt.Errorf("failed to read data: %v (read: %d, wanted: %d)", err, n, length)}
 	}
